@@ -106,7 +106,17 @@ class Clear:
             bt = self.plain(b) if b[1] else b[0]
             if is_rational_value(bt):
                 return (a[0] / bt, a[1])
+            # (u * d) / d  ->  u   (d must still be shown non-zero: it is registered as a divisor)
             self.divisors[bt.get_id()] = bt
+            if is_mul(a[0]):
+                fs = list(a[0].children())
+                for q, f_ in enumerate(fs):
+                    if f_.get_id() == bt.get_id():
+                        rest = fs[:q] + fs[q + 1:]
+                        num = rest[0]
+                        for r_ in rest[1:]:
+                            num = num * r_
+                        return (num, a[1])
             return (a[0], tuple(sorted(list(a[1]) + [bt.get_id()])))
         if is_app(t) and t.decl().kind() == z3.Z3_OP_ITE:
             c = self.boolean(t.arg(0))
